@@ -540,6 +540,53 @@ Definition pi_boost (s : st) : option (st * list (Z * Z)) :=
   pi_waiters (edges s) (map fst (edges s)) s.
 
 (* ------------------------------------------------------------------ *)
+(* system.register_resource(r, allow_preemption) -> controller.register_resource:
+   `self.resources[r] = ResourceLock(r, allow_preemption)`.
+
+   For an id that is registered already this REPLACES the lock object: the new
+   lock is free, with an empty waiting list, at the old position of the dict.
+   The old lock object is no longer registered, but every OperationContext that
+   obtained it still refers to it (acquired_resources maps the id to the lock
+   OBJECT), and release_resource / release_all_resources release through that
+   reference.  The model keeps such a replaced lock in [resources] under a RETIRED
+   key (>= [retired_from], never a resource id of a caller; fresh), and renames
+   the id to that key in the acquired_resources of every context: id <-> object
+   again.  Retired keys are not registered resources: [registered], and they are
+   left out of every observation.  A replaced lock that was free is simply
+   dropped (nothing can change it any more and nothing reads it).
+
+   Not exact under re-registration: the dependency graph.  Its edges are labelled
+   with the resource ID, which both generations of the lock share in the code; a
+   release of the replaced lock drops the edges of the waiters of the new one.
+   Cases with a registration therefore leave the graph rows out of the
+   comparison and do not run the watchdog / priority inheritance (the only
+   readers of the graph): [uses_reg], harness rule. *)
+
+Definition retired_from : Z := 1000.
+Definition registered (r : Z) : bool := Z.ltb r retired_from.
+
+Definition fresh_key (s : st) : Z :=
+  fold_right (fun rl m => Z.max (fst rl + 1) m) retired_from (resources s).
+
+Definition fresh_lock (pre : bool) : lock := mkLock None 0 0 pre [].
+
+Definition rename_acq (r k : Z) (c : ctx) : ctx :=
+  c_set_acq c (map (fun x => if Z.eqb x r then k else x) (c_acq c)).
+
+Definition reregister (s : st) (r : Z) (pre : bool) : st :=
+  match get_lock s r with
+  | None => set_resources s (resources s ++ [(r, fresh_lock pre)])
+  | Some l =>
+      match l_owner l with
+      | None => put_lock s r (fresh_lock pre)
+      | Some _ =>
+          let k := fresh_key s in
+          set_ctxs (set_resources s (aset (resources s) r (fresh_lock pre) ++ [(k, l)]))
+                   (map (fun oc : Z * ctx => (fst oc, rename_acq r k (snd oc))) (ctxs s))
+      end
+  end.
+
+(* ------------------------------------------------------------------ *)
 (* the step API used by histories, and by scripted work functions       *)
 
 Inductive fop :=
@@ -554,7 +601,9 @@ Inductive fop :=
 | FTick (d : Z)
 | FMaintain                          (* system.run_maintenance(): check_and_boost, then watchdog.execute *)
 | FAdvance (o : Z)                   (* ctx = active_operations.get(o); controller.advance(ctx), default checkpoints *)
-| FPopWaiter (r : Z).                (* controller.resources[r].pop_next_waiter() *)
+| FPopWaiter (r : Z)                 (* controller.resources[r].pop_next_waiter() *)
+| FRegister (r : Z) (pre : bool).    (* system.register_resource(r, allow_preemption=pre): a NEW id, or an id that is
+                                        registered already (re-registration, the only way to switch allow_preemption) *)
 
 Definition lres_code (r : lres) : Z :=
   match r with LAcquired => 0 | LBlocked => 1 | LReentrant => 2 | LPreempted => 3 end.
@@ -608,6 +657,7 @@ Definition fstep (fl : flags) (w : wcfg) (s : st) (a : fop) : st * list Z :=
           | x :: t => (put_lock s r (mkLock (l_owner l) (l_prio l) (l_hold l) (l_preempt l) t), [1; fst x; snd x])
           end
       end
+  | FRegister r pre => (reregister s r pre, [0])
   end.
 
 (* ------------------------------------------------------------------ *)
@@ -725,7 +775,7 @@ Inductive ev :=
 
 Definition probe (s : st) : list (Z * Z) :=
   map (fun rl : Z * lock => (match l_owner (snd rl) with Some o => o | None => -1 end, l_hold (snd rl)))
-      (resources s).
+      (filter (fun rl : Z * lock => registered (fst rl)) (resources s)).
 
 Record result := mkResult { r_success : bool; r_phase : phase; r_log : list ev }.
 
@@ -960,7 +1010,74 @@ Definition init_state (res : list (Z * bool)) : st :=
 (* registered resources (id, allow_preemption), watchdog configuration, history *)
 Definition case := (list (Z * bool) * wcfg * list op)%type.
 
+(* does the history register a resource anywhere (top level, work functions, nested calls)? *)
+Definition fop_is_reg (a : fop) : bool := match a with FRegister _ _ => true | _ => false end.
+Fixpoint sc_uses_reg (sc : script) : bool :=
+  match sc with
+  | mkScript _ _ work _ _ _ _ _ =>
+      existsb (fun a => match a with
+                        | WDo f => fop_is_reg f
+                        | WExec _ _ _ sc' => sc_uses_reg sc'
+                        | WProbe => false
+                        end) work
+  end.
+Definition uses_reg (ops : list op) : bool :=
+  existsb (fun a => match a with OFlat f => fop_is_reg f | OExec _ _ _ sc => sc_uses_reg sc end) ops.
+
+(* rows of replaced locks (retired keys) are never shown; the graph rows (103 edges, 104 cycle) only in
+   histories without a registration *)
+Definition shown (hide_graph : bool) (row : list Z) : bool :=
+  match row with
+  | 101 :: k :: _ => registered k
+  | 103 :: _ | 104 :: _ => negb hide_graph
+  | _ => true
+  end.
+
 Definition run_case_with (fl : flags) (c : case) : list (list Z) :=
-  let '(res, w, ops) := c in snd (run_ops fl w (init_state res) ops).
+  let '(res, w, ops) := c in filter (shown (uses_reg ops)) (snd (run_ops fl w (init_state res) ops)).
 
 Definition run_case (c : case) : list (list Z) := run_case_with current c.
+
+(* ------------------------------------------------------------------ *)
+(* the `resources` argument of execute_operation is any ITERABLE of ids, not only a
+   list.  execute_operation does `resources = resources or []` and then ONE pass
+   `for resource_id in resources`.  What the operation requests is what the
+   iterable yields on that pass: [request_of].  A second pass over a one-shot
+   iterable yields nothing ([second_pass]) - which is why there must be only one. *)
+Inductive itkind :=
+| KList | KTuple            (* re-iterable sequences; empty ones are falsy *)
+| KGen | KIter | KMap       (* generator, iter(list), map object: one-shot, always truthy *)
+| KOnce                     (* an object with __iter__ returning itself and __next__: one-shot *)
+| KObj                      (* an object whose __iter__ returns a new iterator each time: re-iterable *)
+| KKeys | KDict             (* dict keys view / the dict itself: insertion order, repeats collapse *)
+| KSet.                     (* set / frozenset: repeats collapse (the harness uses one distinct element) *)
+
+Fixpoint dedup (l : list Z) : list Z :=
+  match l with
+  | [] => []
+  | x :: t => x :: filter (fun y => negb (Z.eqb y x)) (dedup t)
+  end.
+
+Definition yields (k : itkind) (items : list Z) : list Z :=
+  match k with
+  | KKeys | KDict | KSet => dedup items
+  | _ => items
+  end.
+
+Definition one_shot (k : itkind) : bool :=
+  match k with KGen | KIter | KMap | KOnce => true | _ => false end.
+
+(* bool(resources): containers are falsy when empty; iterators and plain objects are truthy *)
+Definition it_truthy (k : itkind) (items : list Z) : bool :=
+  match k with
+  | KList | KTuple | KKeys | KDict | KSet => match items with [] => false | _ => true end
+  | _ => true
+  end.
+
+(* the request list the acquisition loop of execute_operation goes through *)
+Definition request_of (k : itkind) (items : list Z) : list Z :=
+  if it_truthy k items then yields k items else [].
+
+(* what a SECOND `for` over the same object would see *)
+Definition second_pass (k : itkind) (items : list Z) : list Z :=
+  if one_shot k then [] else request_of k items.
